@@ -32,7 +32,7 @@ PROPERTY = {
 }
 
 OPS = ["run", "run", "get_run_func", "get_jacobian_func", "get_nodes", "get_edges", "get_edge", "collect_edges",
-       "get_node_template", "getitem", "to_yaml", "deepcopy", "update_template", "copy_then_update"]
+       "get_node_template", "getitem", "to_yaml", "deepcopy", "update_template", "copy_then_update", "derive_operator"]
 
 
 def snapshot(circ, seen=None):
@@ -198,6 +198,25 @@ class Interp:
             if not self.hier and op.get("i", 0) % 2:
                 nm = self.spec["nodes"][0][0]
                 c.update_template(nodes={nm + "_extra": c.nodes[nm]})
+        elif k == "derive_operator":
+            # a derived operator template (what loading a YAML template with `base:` and equation edits does): the edit
+            # makes one parameter of the base unused in the derived equations; the base template must stay as it is
+            def node_templates(cc):
+                out = list(cc.nodes.values())
+                for sub in cc.circuits.values():
+                    out += node_templates(sub)
+                return out
+            nts = node_templates(c)
+            nt = nts[op.get("i", 0) % len(nts)]
+            ots = list(nt.operators)
+            ot = ots[(op.get("i", 0) // 3) % len(ots)]
+            consts = sorted(v for v, d in ot.variables.items() if isinstance(d, (int, float)))
+            edit = {"add": ["zq9 = 1.0"]} if not consts or op.get("i", 0) % 4 == 0 else \
+                {"replace": {consts[op.get("i", 0) % len(consts)]: "(1.5)"}}
+            kw = {"variables": {"zq9": "variable(0.0)"}} if "add" in edit else {}
+            ot.update_template(name=ot.name + "_derived", equations=edit, **kw)
+            if "add" in edit and "add" not in edit:
+                raise AssertionError("edit dictionary changed")
         elif k == "copy_then_update":
             # a copy-making operation, then IN-PLACE changes of the copy (values of a node variable and of an inherited
             # edge): the template the copy was made from (and its sibling) must stay as they were
@@ -282,7 +301,7 @@ class HistoryArm(Arm):
     min_per_shard = 10
     case_timeout = 300
     required_labels = ("op:to_yaml", "op:collect_edges", "op:run", "op:get_jacobian_func", "hierarchical", "flat",
-                       "op:copy_then_update:derive_edges", "op:copy_then_update:deepcopy")
+                       "op:copy_then_update:derive_edges", "op:copy_then_update:deepcopy", "op:derive_operator")
 
     def machine(self, ctx, sink, budget_hook):
         self_ = self
